@@ -15,7 +15,7 @@ use serde_json::{json, Value};
 pub const META: Meta = Meta {
     id: "C06",
     level: "exploration",
-    rule: "Cases: entity length from a few hundred bytes to 2^64-1 (incl. 10^k and 2^k boundaries so that numbers have 1-20 digits), 2-8 (occasionally up to 40) satisfiable ranges built from anchors so that they overlap, touch, repeat and come out of order, in all three spec forms, sized so that the statement requires multipart (plus a band between the thresholds); 0-4 entity headers of length 0-200 incl. duplicate names and bytes >= 0x80; with and without a matching If-Range; chunked entity streams; optionally one astronomically large last part (checked on a drained prefix + arithmetic). Oracle: strict length-driven multipart parser written from RFC 2046/7233, reference range resolver, position-hashed content. Non-trivial = >= 2 parts parsed to the closing delimiter (or to the huge last part); distinct by fingerprint of the case.",
+    rule: "Cases: entity length from a few hundred bytes to 2^64-1 (incl. 10^k and 2^k boundaries so that numbers have 1-20 digits), 2-8 (occasionally up to 40) satisfiable ranges built from anchors so that they overlap, touch, repeat and come out of order, in all three spec forms, sized so that the statement requires multipart (plus a band between the thresholds); one case in 33 with 9 to 400 small ranges of a large entity (number of parts); entities of about 2^64 bytes with one range covering nearly everything (multipart length at the edge of u64); 0-4 entity headers of length 0-200 incl. duplicate names and bytes >= 0x80, occasionally dozens of headers or a value of several KB; with and without a matching If-Range; chunked entity streams; optionally one astronomically large last part (checked on a drained prefix + arithmetic). Oracle: strict length-driven multipart parser written from RFC 2046/7233, reference range resolver, position-hashed content. Non-trivial = >= 2 parts parsed to the closing delimiter (or to the huge last part); distinct by fingerprint of the case.",
     assumptions: &[
         "harness entity honours the Entity contract",
         "a part longer than the drain cap must be the last one; the total is then checked arithmetically from the parsed prefix",
@@ -59,6 +59,13 @@ pub fn check(c: &Case, acc: &mut Acc) -> Check {
     let Some(ranges) = ranges else {
         return fail("multipart:unparsed", format!("multipart body could not be examined: {}; {}", served.trace.summary(), what()));
     };
+    if ranges.len() >= 201 {
+        acc.count("parts>=201");
+    } else if ranges.len() >= 65 {
+        acc.count("parts:65-200");
+    } else if ranges.len() >= 9 {
+        acc.count("parts:9-64");
+    }
     let has_if_range = c.req.has("if-range");
     if *truncated {
         ensure!(
@@ -286,7 +293,52 @@ fn near_overflow_strategy() -> BoxedStrategy<Case> {
 }
 
 pub fn case_strategy() -> BoxedStrategy<Case> {
-    prop_oneof![15 => main_strategy(), 1 => near_overflow_strategy()].boxed()
+    prop_oneof![30 => main_strategy(), 2 => near_overflow_strategy(), 1 => many_parts_strategy()].boxed()
+}
+
+/// The *number* of parts: 9 to 400 small ranges of a large entity (every part's header, bytes and
+/// order are checked like those of a three-part answer).
+fn many_parts_strategy() -> BoxedStrategy<Case> {
+    (
+        proptest::sample::select(&[400_000u64, 10_000_000, 1 << 40][..]),
+        prop_oneof![3 => 9usize..=64, 2 => 65usize..=210, 1 => 211usize..=400],
+        any::<u64>(),
+        reqgen::entity_headers_strategy(),
+        reqgen::plan_strategy(),
+    )
+        .prop_map(|(len, n, salt, headers, plan)| {
+            let mut v = String::from("bytes=");
+            let mut s = salt;
+            for i in 0..n {
+                s = crate::util::splitmix64(s);
+                if i > 0 {
+                    v.push_str(if s & 1 == 0 { "," } else { ", " });
+                }
+                let a = (s >> 8) % len;
+                let w = (s >> 40) % 4;
+                match s % 9 {
+                    0 => v.push_str(&format!("-{}", w + 1)),
+                    _ => v.push_str(&format!("{a}-{}", a.saturating_add(w))),
+                }
+            }
+            let headers: Vec<(String, Bs)> = headers.into_iter().take(4).filter(|(_, v)| v.0.len() < 300).collect();
+            Case {
+                ent: EntitySpec {
+                    len,
+                    etag: None,
+                    mtime: Mtime::None,
+                    headers,
+                    plan,
+                    faults: vec![],
+                    tail: vec![],
+                    segments: 0,
+                    counting_hint: false,
+                    unfused_errors: false,
+                },
+                req: ReqSpec::get().with("range", v),
+            }
+        })
+        .boxed()
 }
 
 fn main_strategy() -> BoxedStrategy<Case> {
